@@ -560,6 +560,29 @@ for name, ks in CONFIGS:
 inv_run([(0, True, [(PUB, "KA", K0, b"\x01", {}), (PRIV, "KA", K0, b"\x01", {}), (PUB, "KA", K1, b"\x02", {}), (PRIV, "KA", K1, b"\x02", {})])], good, "inventory-ids")
 inv_run([(0, True, [(PUB, "KA", K0, b"\x01", {}), (PRIV, "KA", K0, None, {})])], good, "inventory-ids")
 inv_run([(0, True, [(PUB, "KA", K0, None, {}), (PRIV, "KA", K0, b"\x01", {}), (PRIV, "KA", K0, None, {})])], good, "inventory-ids")
+# labels that differ by a trailing blank are different labels: two pairs are two pairs, and only the one labelled exactly like the configured KSK is that KSK
+def label_blank_case(objs, ksks, want_pairs, want_ksk_lines, kind="inventory-label-blanks"):
+    tok = inv_token([(0, True, objs)])
+    emu.install(tok)
+    rc = vlib.run_impl(ceremony.make_config, ksks, {"s": {i: {"publish": next(iter(ksks)), "sign": next(iter(ksks))} for i in range(1, 10)}}, hsm={"m0": {"module": "emu:0", "pin": "1234"}})
+    ri = vlib.run_impl(init_pkcs11_modules, rc[1], rw_session=True) if rc[0] == "ok" else rc
+    r = vlib.run_impl(key_inventory, ri[1], rc[1], False) if ri[0] == "ok" else ri
+    count(kind)
+    if r[0] != "ok":
+        rep.violation("impl-vs-spec", f"{kind}: inventory failed ({r[2]}) on a token whose labels differ by a blank", {"kind": kind})
+        return
+    lines = [str(l) for l in r[1]]
+    pair_lines = [l for l in lines if "-- KSK" in l or "Matching KSK not found" in l or "BAD KSK" in l]
+    ksk_lines = [l for l in lines if "-- KSK" in l and "BAD" not in l]
+    if len(pair_lines) != want_pairs or len(ksk_lines) != want_ksk_lines:
+        rep.violation("impl-vs-spec", f"{kind}: the token holds {want_pairs} key pair(s) whose labels differ only by a blank ({[o[1] for o in objs if o[0] == PUB]}), "
+                      f"{want_ksk_lines} of them labelled exactly like the configured KSK; the inventory lists {len(pair_lines)} pair(s), {len(ksk_lines)} as the configured KSK",
+                      {"kind": kind, "inventory": lines[:40]})
+
+
+label_blank_case([(PUB, "KA", K0, None, {}), (PRIV, "KA", K0, None, {}), (PUB, "KA ", K1, None, {}), (PRIV, "KA ", K1, None, {})], {"a": ceremony.ksk_def(K0, label="KA")}, 2, 1)
+label_blank_case([(PUB, "KA ", K0, None, {}), (PRIV, "KA ", K0, None, {})], {"a": ceremony.ksk_def(K0, label="KA")}, 1, 0)
+label_blank_case([(PUB, "KA", K0, None, {}), (PRIV, "KA", K0, None, {})], {"a": ceremony.ksk_def(K0, label="KA")}, 1, 1)
 # duplicates of one identity, only one class present, empty slots, slots without session
 inv_run([(0, True, [(PUB, "KA", K0, None, {}), (PUB, "KA", K1, None, {}), (PRIV, "KA", K0, None, {})])], good, "inventory-duplicate")
 inv_run([(0, True, [(PUB, "KA", K0, None, {}), (PUB, "KB", K1, None, {})]), (1, True, []), (2, False, [(PUB, "KC", K2, None, {})]),
